@@ -27,7 +27,7 @@ STUBS = [
 ]
 FLOAT_MODE = "R-mode exact reals, QF_NRA for distances"
 BOUNDS = {"quick": dict(atoms="<=3 (<=2 symbolic)", dims=[2, 3]), "thorough": dict(atoms="<=4 (<=2 symbolic)", dims=[2, 3])}
-OUTSIDE = ["three or more fully symbolic atoms (NRA does not terminate)", "calibrated layouts of real devices", "draw"]
+OUTSIDE = ["three or more fully symbolic atoms (NRA does not terminate)", "two symbolic 3D atoms among three together with a symbolic minimal distance (NRA > 25 min)", "calibrated layouts of real devices", "draw"]
 TIMEOUT_MS = {"quick": 30000, "thorough": 90000}
 
 
@@ -462,6 +462,8 @@ def kernels(tier):
                 for maxr in (True, False):
                     if nsym == 2 and n == 3 and (maxr and mind):
                         continue
+                    if nsym == 2 and n == 3 and dims == 3 and mind:
+                        continue  # two fully symbolic 3D atoms among three with a symbolic minimal distance: NRA needs > 25 min
                     ks.append(("coords", dict(dims=dims, n=n, nsym=nsym, mind=mind, maxr=maxr, maxn=(n >= 2 and nsym == 1))))
     # four atoms (pair bookkeeping differs from the 3-atom case: condensed-vector index <-> pair)
     ks.append(("coords", dict(dims=2, n=4, nsym=1, mind=True, maxr=False, maxn=False)))
